@@ -235,6 +235,16 @@ func reproConfig(g *pkgGen, i int) genOut {
 	if i%4 == 1 {
 		c.Contents = append(c.Contents, &files.Content{Source: "many", Destination: fmt.Sprintf("/opt/many%d", i), Type: "tree"})
 	}
+	// large files first in destination order, smaller ones after them: whatever is pipelined must still come out in order
+	if i%4 == 3 {
+		c.Contents = append(c.Contents,
+			&files.Content{Source: "src/big2.bin", Destination: fmt.Sprintf("/opt/a%d/0-big2.bin", i)},
+			&files.Content{Source: "src/big.bin", Destination: fmt.Sprintf("/opt/a%d/1-big.bin", i)},
+			&files.Content{Source: "src/big2.bin", Destination: fmt.Sprintf("/opt/a%d/2-big2-again.bin", i)},
+			&files.Content{Source: "src/f1", Destination: fmt.Sprintf("/opt/a%d/3-small", i)},
+			&files.Content{Source: "src/f2", Destination: fmt.Sprintf("/opt/a%d/4-small", i)},
+			&files.Content{Source: "src/d", Destination: fmt.Sprintf("/opt/a%d/5-tree", i), Type: "tree"})
+	}
 	return gen
 }
 
